@@ -38,7 +38,34 @@ def hang_result(obs, prop_is_liveness=False):
     }
 
 
+class debug_logging:
+    """The package's loggers at DEBUG for the duration (what `aws --debug` / boto3.set_stream_logger do)."""
+
+    def __init__(self, on):
+        self.on = on
+
+    def __enter__(self):
+        if self.on:
+            import logging
+
+            self.lg = logging.getLogger('s3transfer')
+            self.old = self.lg.level
+            self.h = logging.NullHandler()
+            self.lg.addHandler(self.h)
+            self.lg.setLevel(logging.DEBUG)
+
+    def __exit__(self, *a):
+        if self.on:
+            self.lg.setLevel(self.old)
+            self.lg.removeHandler(self.h)
+
+
 def run_any(spec):
+    with debug_logging(spec.get('debug_log')):
+        return _run_any(spec)
+
+
+def _run_any(spec):
     fe = spec.get('front_end', 'manager')
     if fe == 'manager':
         return scenario.run(spec)
